@@ -182,9 +182,14 @@ def _dynamic(ctx):
                         ctx.violation(f"dynamic:volumes-changed:{system}", "apply_symetry_on_elast_data changed the volumes", case_id)
                     cls += "+apply_symetry"
                 else:
-                    df = FT.make_frame(field, S, rng, shuffle=bool(n % 2))
+                    ikind = FT.INDEX_KINDS[(n // 2) % len(FT.INDEX_KINDS)]
+                    df = FT.reindex(FT.make_frame(field, S, rng, shuffle=bool(n % 2)), ikind, rng)
+                    cls += "+index:" + ikind
+                    sample["row_index"] = ikind
                     res = fill_cij(df, system)
                     out = FT.frame_moduli(res)
+                    if len(res) != nrows or list(res.index) != list(df.index):
+                        ctx.violation(f"dynamic:row-index-changed:{ikind}", f"{system}: the filled table has rows {list(res.index)[:4]}, the input {list(df.index)[:4]}", case_id, sample)
                     if "V" not in res.columns or not numpy.array_equal(res["V"].to_numpy(), df["V"].to_numpy()):
                         ctx.violation(f"dynamic:V-column:{system}", "the volume column was changed or lost", case_id)
             except Exception as exc:
